@@ -235,7 +235,7 @@ func unmarshalMap(dec *msgpack.Decoder, ety cty.Type, path cty.Path) (cty.Value,
 	for i := 0; i < length; i++ {
 		key, err := dec.DecodeString()
 		if err != nil {
-			path[:len(path)-1].NewErrorf("non-string key in map")
+			return cty.DynamicVal, path[:len(path)-1].NewErrorf("non-string key in map")
 		}
 
 		path[len(path)-1] = cty.IndexStep{
